@@ -58,7 +58,8 @@ class Env(object):
         self.ops += 1
         if self.ops > self.op_limit:
             raise StepWatchdog('more than %d transport operations' % self.op_limit)
-        self.trace.append((threading.current_thread().name, op, detail, round(self.clock.now, 6)))
+        who = self.sched.name_of_current() if self.sched is not None else None
+        self.trace.append((who or threading.current_thread().name, op, detail, round(self.clock.now, 6)))
         if self.sched is not None:
             self.sched.yield_point((op, detail if isinstance(detail, int) else None))
 
@@ -86,7 +87,12 @@ class Conn(object):
 
     # -- peer side
     def deliver(self, data, delay=0.0):
-        if data:
+        bt = getattr(self.env, 'byte_time', 0.0)
+        if data and bt:
+            # a slow serial line: the bytes arrive one at a time (600 baud = 18 ms per character)
+            for i, b in enumerate(bytes(data)):
+                self.rx.append([self.env.clock.now + delay + (i + 1) * bt, bytes([b])])
+        elif data:
             self.rx.append([self.env.clock.now + delay, bytes(data)])
 
     def peer_close(self, delay=0.0):
@@ -96,6 +102,10 @@ class Conn(object):
     def available(self):
         now = self.env.clock.now
         return sum(len(b) for t, b in self.rx if t <= now)
+
+    def in_flight(self):
+        now = self.env.clock.now
+        return sum(len(b) for t, b in self.rx if t > now)
 
     def next_arrival(self):
         now = self.env.clock.now
